@@ -150,9 +150,6 @@ where
         T::from_owned(owned, &mut sl).expect("initial value serialises");
     }
     let buf = GuardBuf::new(&init, flush);
-    if refuse >= 0 {
-        buf.refuse_at.set(Some(refuse as usize));
-    }
     let mut out = vec![];
     let nsteps = c.next().unwrap();
     let mut w = match ExclusiveWrapper::<T::Ptr, _>::new(&buf) as Result<ExclusiveWrapperTop<'_, T, GuardBuf>> {
@@ -162,7 +159,8 @@ where
             return out;
         }
     };
-    for _ in 0..nsteps {
+    for step_index in 0..nsteps {
+        buf.refuse_now.set(step_index == refuse);
         let len = c.next().unwrap() as usize;
         let opints = c.take(len).unwrap();
         let mut oc = Cur::new(opints);
